@@ -184,7 +184,10 @@ type World struct {
 	Trace []Op
 	// when set, a Put/Remove is allowed to lose against a concurrent op (A engine handles oracles itself)
 	ledger *Ledger
-	relocs int
+	// initLocs: locations of the present keys before the concurrent phase
+	// (engine A ledger scenarios).
+	initLocs map[string]types.Block
+	relocs   int
 	// crashed: the world was recovered from a crash image (file tails may be
 	// torn; fsck group F0 does not apply).
 	crashed bool
@@ -231,6 +234,17 @@ func (w *World) rawLocations() map[string]rawLoc {
 		}
 	}
 	return out
+}
+
+func (w *World) keyByName(name string) Key {
+	for _, ks := range [][]Key{w.Keys, w.Probes} {
+		for _, k := range ks {
+			if k.Name == name {
+				return k
+			}
+		}
+	}
+	return Key{}
 }
 
 func (w *World) allNames() []string {
